@@ -318,12 +318,12 @@ def make_popen(k):
             raise NotImplementedError
 
         def __del__(self):
-            for w in self._wends:
+            for w in getattr(self, "_wends", ()):
                 try:
                     os.close(w)
                 except OSError:
                     pass
-            for f in (self.stdout, self.stderr):
+            for f in (getattr(self, "stdout", None), getattr(self, "stderr", None)):
                 try:
                     if f is not None:
                         f.close()
